@@ -88,6 +88,9 @@ class Engine(ExprMixin, CallMixin, BuiltinMixin, VerifyMixin):
         CTX.exc_parent = parent
         CTX.exc_classes = dict((n, i) for i, n in enumerate(sorted(parent)))
         self.exc_cls = CTX.func("exc_cls", CTX.sort(EXC), z3.IntSort())
+        # only Exception subclasses are modelled as faults (DESIGN section 5.2)
+        ids = [CTX.exc_classes[d] for d in CTX.exc_descendants("Exception")]
+        CTX.axioms.append(core.forall_ty(EXC, lambda e: z3.Or([self.exc_cls(e) == i for i in ids])))
 
     def exc_name(self, n):
         return EXC_ALIAS.get(n, n)
@@ -210,6 +213,8 @@ class Engine(ExprMixin, CallMixin, BuiltinMixin, VerifyMixin):
             for it in v.items:
                 r = core.sadd(r, self.adapt(it, ty.elem))
             return r
+        if isinstance(v.ty, Tup) and isinstance(ty, Tup) and v.items is not None and len(v.items) == len(ty.elems) and v.ty != ty:
+            return mk_tuple([self.adapt(it, e) for it, e in zip(v.items, ty.elems)])
         if isinstance(v.ty, Tup) and isinstance(ty, List):
             r = core.lempty(ty.elem)
             for i in range(len(v.ty.elems)):
@@ -298,6 +303,14 @@ class Engine(ExprMixin, CallMixin, BuiltinMixin, VerifyMixin):
         mark = len(self.raised)
         try:
             starts = [st]
+            if self.contract is not None and self.contract.ghost_on and isinstance(s, ast.For):
+                # "@for <target>": ghost statements run just before the loop over that target starts
+                for item in self.contract.ghost_on:
+                    if item[0].startswith("@for ") and item[0][5:].strip() == ast.unparse(s.target):
+                        nxt = []
+                        for cur in starts:
+                            nxt.extend(o.st for o in self.exec_ghost(item[1], cur) if o.kind == "normal")
+                        starts = nxt
             if self.contract is not None and self.contract.ghost_on and not isinstance(s, (ast.For, ast.While, ast.If, ast.Try, ast.With)):
                 for item in self.contract.ghost_on:
                     if len(item) > 2 and item[2] == "before" and self.match_pattern(item[0], s):
@@ -360,6 +373,8 @@ class Engine(ExprMixin, CallMixin, BuiltinMixin, VerifyMixin):
         return self._spec_cache[text]
 
     def match_pattern(self, pat, node):
+        if pat.startswith("@for "):
+            return False
         key = ("pat", pat)
         if key not in self._spec_cache:
             p = ast.parse(pat).body[0]
@@ -735,6 +750,8 @@ class Engine(ExprMixin, CallMixin, BuiltinMixin, VerifyMixin):
         for st1, v in self.ev(node, st):
             if v.ty is EXC:
                 res.append((st1, v))
+            elif isinstance(v.ty, Opt) and v.ty.elem is EXC:
+                res.append((st1, core.oval(v)))     # guarded by a truthiness test of the stored exception
             else:
                 raise OutsideSubset("raise of non-exception %r" % (v.ty,))
         return res
@@ -831,7 +848,7 @@ class Engine(ExprMixin, CallMixin, BuiltinMixin, VerifyMixin):
         return [Outcome("normal", st)]
 
     # -- loops -----------------------------------------------------------------------------------
-    from .loops import st_For, st_While, run_loop, dry_run, havoc_written, check_invariants, _unrolled, _elem_form, _items_alias  # noqa: E402
+    from .loops import st_For, st_While, run_loop, dry_run, havoc_written, check_invariants, _unrolled, _elem_form, _items_alias, _append_loop_as_comprehension  # noqa: E402
 
 
 def _same_bindings(a, b):
